@@ -5,6 +5,7 @@ package main
 import (
 	"encoding/json"
 	"fmt"
+	"go/types"
 	"os"
 	"path/filepath"
 	"regexp"
@@ -307,6 +308,7 @@ func runProperty(prop string, tier string, seed int, only string) (*runResult, e
 	specs.parseContracts("deps", depLines)
 	res := &runResult{trusted: map[string]bool{}, ctxs: map[*Obligation]*FnCtx{}}
 	res.errs = append(res.errs, specs.errs...)
+	res.obls = append(res.obls, checkImmutables(L, specs, prop)...)
 	tmo := 10
 	if tier == "thorough" {
 		tmo = 60
@@ -527,4 +529,130 @@ func writeJSON(path string, v any) error {
 		return err
 	}
 	return os.WriteFile(path, append(b, '\n'), 0o644)
+}
+
+// checkImmutables decides `immutable T.f` declarations: every Store whose address
+// is &x.f (x of type *T) anywhere in the loaded /repo packages must have x
+// allocated in the same function (construction). Such a field heap is then
+// frame-stable: no call can change it on an object that already existed.
+func checkImmutables(L *Loaded, specs *SpecSet, prop string) []*Obligation {
+	var out []*Obligation
+	for _, d := range specs.immutables {
+		tp := L.tpkgs[d.pkg]
+		if tp == nil {
+			continue
+		}
+		obj := tp.Scope().Lookup(d.typ)
+		if obj == nil {
+			specs.errs = append(specs.errs, fmt.Sprintf("immutable %s.%s: unknown type", d.typ, d.field))
+			continue
+		}
+		T := obj.Type()
+		var bad []string
+		nStores := 0
+		for path, sp := range L.spkgs {
+			if !strings.HasPrefix(path, repoMod) {
+				continue
+			}
+			for _, fn := range allFuncsOf(sp) {
+				for _, b := range fn.Blocks {
+					for _, ins := range b.Instrs {
+						st, ok := ins.(*ssa.Store)
+						if !ok {
+							continue
+						}
+						// whole-struct store *p = v with p : *T overwrites every field
+						if _, WT, isSP := isStructPtr(st.Addr.Type()); isSP && structKey(WT) == structKey(T) {
+							nStores++
+							if _, isAlloc := st.Addr.(*ssa.Alloc); !isAlloc {
+								pos := L.prog.Fset.Position(st.Pos())
+								bad = append(bad, fmt.Sprintf("%s whole-struct store (%s:%d)", fn.RelString(nil), strings.TrimPrefix(pos.Filename, repoDir+"/"), pos.Line))
+							}
+							continue
+						}
+						fa, ok := st.Addr.(*ssa.FieldAddr)
+						if !ok {
+							continue
+						}
+						s, ST, ok := isStructPtr(fa.X.Type())
+						if !ok || structKey(ST) != structKey(T) || s.Field(fa.Field).Name() != d.field {
+							continue
+						}
+						nStores++
+						if _, isAlloc := fa.X.(*ssa.Alloc); !isAlloc {
+							pos := L.prog.Fset.Position(st.Pos())
+							bad = append(bad, fmt.Sprintf("%s (%s:%d)", fn.RelString(nil), strings.TrimPrefix(pos.Filename, repoDir+"/"), pos.Line))
+						}
+					}
+				}
+			}
+		}
+		heap := fieldHeap(T, d.field)
+		o := &Obligation{Name: fmt.Sprintf("%s.immutable.%s.%s", firstProp(d.props, prop), d.typ, d.field), Kind: "immutable", Func: d.pkg,
+			Clause: fmt.Sprintf("field %s.%s is only assigned on objects allocated in the assigning function (%d stores checked)", d.typ, d.field, nStores), Props: d.props, Hyp: "true", Goal: "true"}
+		if len(bad) == 0 {
+			o.Verdict = "unsat"
+			declaredStable[heap] = true
+			o.Results = []SolverResult{{Solver: "syntactic-frame-scan", Verdict: "unsat"}}
+		} else {
+			o.Verdict = "sat"
+			o.Where = strings.Join(bad, "; ")
+			o.Results = []SolverResult{{Solver: "syntactic-frame-scan", Verdict: "sat", Raw: "stores to pre-existing objects: " + o.Where}}
+		}
+		if hasProp(d.props, prop) {
+			out = append(out, o)
+		}
+	}
+	return out
+}
+
+func firstProp(props []string, dflt string) string {
+	for _, p := range props {
+		if p == dflt {
+			return p
+		}
+	}
+	if len(props) > 0 {
+		return props[0]
+	}
+	return dflt
+}
+
+func allFuncsOf(sp *ssa.Package) []*ssa.Function {
+	var out []*ssa.Function
+	var add func(f *ssa.Function)
+	add = func(f *ssa.Function) {
+		if f == nil {
+			return
+		}
+		out = append(out, f)
+		for _, a := range f.AnonFuncs {
+			add(a)
+		}
+	}
+	for _, m := range sp.Members {
+		switch x := m.(type) {
+		case *ssa.Function:
+			add(x)
+		case *ssa.Type:
+			for _, T := range []types.Type{x.Type(), types.NewPointer(x.Type())} {
+				ms := sp.Prog.MethodSets.MethodSet(T)
+				for i := 0; i < ms.Len(); i++ {
+					f := sp.Prog.MethodValue(ms.At(i))
+					if f != nil && f.Pkg == sp && f.Synthetic == "" {
+						dup := false
+						for _, o := range out {
+							if o == f {
+								dup = true
+							}
+						}
+						if !dup {
+							add(f)
+						}
+					}
+				}
+			}
+		}
+	}
+	return out
 }
